@@ -264,8 +264,14 @@ func checkC20(P *Program, r *Result, tier string) {
 	checkC20Variant(P, r, "go1.21")
 	// the other variant
 	dir := filepath.Join(P.Repo, "unsafex")
-	f121, e1 := os.ReadFile(filepath.Join(dir, "unsafex_go121.go"))
-	f100, e2 := os.ReadFile(filepath.Join(dir, "unsafex_go100.go"))
+	readSrc := func(name string) ([]byte, error) {
+		if b, ok := runOverlay[name]; ok {
+			return b, nil
+		}
+		return os.ReadFile(name)
+	}
+	f121, e1 := readSrc(filepath.Join(dir, "unsafex_go121.go"))
+	f100, e2 := readSrc(filepath.Join(dir, "unsafex_go100.go"))
 	if e1 != nil || e2 != nil {
 		r.fatal("cannot read unsafex sources: %v %v", e1, e2)
 		return
